@@ -2,6 +2,7 @@ package scen
 
 import (
 	"context"
+	"encoding/json"
 	"errors"
 	"fmt"
 	"strings"
@@ -11,6 +12,7 @@ import (
 	bs "github.com/danthegoodman1/bloomsearch"
 
 	"verif/hstore"
+	"verif/refmodel"
 	"verif/vapi"
 )
 
@@ -71,8 +73,26 @@ func buildFixture(name string, batches [][]map[string]any) func() {
 			out = append(out, fixtureFile{p, append([]byte(nil), b...), md})
 		}
 		fixtures[name] = out
+		// row id -> block key (pointer@offset), from an independent parse of the files
+		idx := map[string]string{}
+		for _, f := range out {
+			if pf, err := refmodel.ParseFile(f.data); err == nil {
+				for _, blk := range pf.Blocks {
+					for _, rb := range blk.Rows {
+						var m map[string]any
+						if json.Unmarshal(rb, &m) == nil {
+							idx[fmt.Sprint(m["id"])] = fmt.Sprintf("%s@%d", f.ptr, blk.Meta.RowDataOffset)
+						}
+					}
+				}
+			}
+		}
+		fixtureBlockOf[name] = idx
 	}
 }
+
+// fixtureBlockOf maps, per fixture, a row id to the block that stores it.
+var fixtureBlockOf = map[string]map[string]string{}
 
 func loadFixture(name string) (*hstore.MemData, *hstore.MemMeta) {
 	data, meta := hstore.NewMemData(), hstore.NewMemMeta()
@@ -201,6 +221,7 @@ func cqRoot(p cqp) func() {
 			}
 		}
 		rows := 0
+		var gotIDs []string
 		wg.Add(1)
 		go func() {
 			defer wg.Done()
@@ -220,6 +241,9 @@ func cqRoot(p cqp) func() {
 				}
 				vapi.Log("ret Next true")
 				rows++
+				if p.prop == "C23" {
+					gotIDs = append(gotIDs, fmt.Sprint(res.Row()["id"]))
+				}
 				if res.Row() == nil {
 					vapi.Fail("C20: Next returned true but Row() is nil")
 				}
@@ -237,7 +261,7 @@ func cqRoot(p cqp) func() {
 			wg.Add(1)
 			go func() {
 				defer wg.Done()
-				if p.fixture == "manyfiles" {
+				if p.fixture == "manyfiles" || p.fixture == "long" {
 					vapi.Quiesce() // terminate a query whose pipeline is saturated behind the stalled consumer
 				}
 				for i := 0; i < p.closer; i++ {
@@ -254,7 +278,7 @@ func cqRoot(p cqp) func() {
 			wg.Add(1)
 			go func() {
 				defer wg.Done()
-				if p.fixture == "manyfiles" {
+				if p.fixture == "manyfiles" || p.fixture == "long" {
 					vapi.Quiesce()
 				}
 				vapi.Log("cancel begin")
@@ -301,6 +325,46 @@ func cqRoot(p cqp) func() {
 			if res2.Err() != nil || n != fixtureRows(p.fixture) {
 				vapi.Fail("C21: follow-up query returned %d rows (want %d), err %v", n, fixtureRows(p.fixture), res2.Err())
 			}
+		}
+		if p.prop == "C23" {
+			// Next has returned false: the statistics are final, whatever ended the query
+			st := res.Stats()
+			listed := map[string]int{}
+			processed := map[string]bool{}
+			perFile := map[string]int{}
+			for _, b := range st.BlockStats {
+				k := fmt.Sprintf("%s@%d", b.FilePointer, b.BlockOffset)
+				listed[k]++
+				perFile[string(b.FilePointer)]++
+				if listed[k] > 1 {
+					vapi.Fail("C23: block %s listed %d times in BlockStats", k, listed[k])
+				}
+				if b.BloomFilterSkipped {
+					if b.RowsProcessed != 0 || b.BytesProcessed != 0 {
+						vapi.Fail("C23: skipped block %s reports rows=%d bytes=%d", k, b.RowsProcessed, b.BytesProcessed)
+					}
+				} else {
+					processed[k] = true
+				}
+			}
+			for _, id := range gotIDs {
+				if k := fixtureBlockOf[p.fixture][id]; k != "" && !processed[k] {
+					vapi.Fail("C23: row %s was returned but its block %s is not listed as processed in BlockStats (listed %d times; %d entries in all)", id, k, listed[k], len(st.BlockStats))
+					break
+				}
+			}
+			// all-or-none per file: only for queries that ran to their end (a query ended by Close
+			// or cancellation never reaches some blocks: they are not "evaluated blocks", and the
+			// code documents cancellation as "not a block outcome"; not asserted there)
+			for _, f := range fixtures[p.fixture] {
+				if p.closer > 0 || p.cancel {
+					break
+				}
+				if n := perFile[f.ptr]; n != 0 && n != len(f.md.DataBlocks) {
+					vapi.Fail("C23: file %s lists %d of its %d blocks (all or none)", f.ptr, n, len(f.md.DataBlocks))
+				}
+			}
+			return
 		}
 		if p.prop != "C20" {
 			return
@@ -526,6 +590,35 @@ func init() {
 			}
 			return out
 		}
+	}
+	// one block of 450 matching rows: seven delivery batches, so a worker is still in the middle
+	// of its scan when the cursor buffer (4 batches) is full
+	setups["long"] = buildFixture("long", [][]map[string]any{append(hitRows("w", "x", 450), hitRows("v", "y", 3)...)})
+	fixtureHits["long"] = 453
+	Registry["C23"] = func(tier string) []Scenario {
+		ps := []cqp{
+			{"long", 1, 1, 1, false, false, "fresh", "C23", false},
+			{"long", 2, 70, 0, true, false, "fresh", "C23", false},
+			{"big", 2, 65, 1, false, false, "fresh", "C23", false},
+			{"small", 2, 1, 1, true, false, "started", "C23", false},
+			{"small", 2, -1, 0, false, true, "fresh", "C23", false},
+		}
+		if tier == "thorough" {
+			ps = append(ps, cqp{"long", 2, 129, 1, false, false, "fresh", "C23", true}, cqp{"long", 1, 1, 0, true, false, "stopped", "C23", false},
+				cqp{"small", 1, 1, 2, false, true, "fresh", "C23", false}, cqp{"big", 1, 1, 1, true, false, "fresh", "C23", false}, cqp{"manyfiles", 1, 1, 1, false, false, "fresh", "C23", false})
+		}
+		var out []Scenario
+		for _, p := range ps {
+			s := Scenario{Prop: "C23", Name: p.name(), Root: cqRoot(p), Setup: setups[p.fixture], Horizon: time.Second, Sched: 1, DelayBound: true, MaxSteps: 4000000}
+			if p.fixture == "small" {
+				s.Sched = 2
+			}
+			if p.faults {
+				s.Fault = 1
+			}
+			out = append(out, s)
+		}
+		return out
 	}
 	Registry["C20"] = family("C20")
 	Registry["C21"] = family("C21")
